@@ -696,7 +696,7 @@ pub fn gen_peer(ch: &mut Choices) -> PeerCase {
     PeerCase { blocks, queue, prune_to, reverse: ch.bool() }
 }
 
-fn pb_varint(out: &mut Vec<u8>, mut x: u64) {
+pub(crate) fn pb_varint(out: &mut Vec<u8>, mut x: u64) {
     loop {
         let b = (x & 0x7f) as u8;
         x >>= 7;
@@ -707,14 +707,14 @@ fn pb_varint(out: &mut Vec<u8>, mut x: u64) {
         out.push(b | 0x80);
     }
 }
-fn pb_len(field: u64, body: &[u8]) -> Vec<u8> {
+pub(crate) fn pb_len(field: u64, body: &[u8]) -> Vec<u8> {
     let mut out = vec![];
     pb_varint(&mut out, field << 3 | 2);
     pb_varint(&mut out, body.len() as u64);
     out.extend_from_slice(body);
     out
 }
-fn rpc_frame(body: &[u8]) -> Vec<u8> {
+pub(crate) fn rpc_frame(body: &[u8]) -> Vec<u8> {
     let mut v = (body.len() as u32).to_le_bytes().to_vec();
     v.extend_from_slice(body);
     v
